@@ -427,3 +427,45 @@ def c05_divide_sym(a: int, b: int, o1: int, o2: int) -> bool:
         if len(line) != len(line.plain):
             return False
     return pos == len(_DIV_PLAIN)
+
+
+# --- split on separators that are regex metacharacters ----------------------------------------------------------------
+_SPECIAL_TEXTS = ["a.b+c", "x|y?z|", "(a)*b", "v1.2.30", "a\\b$c^"]
+_SPECIAL_SEPS = [".", "+", "|", "?", "(", ")", "*", "$", "^", "\\", "b+", ".2"]
+
+
+def _ref_split(plain, sep, inc, blank):
+    parts = []
+    i = 0
+    while True:
+        j = plain.find(sep, i)
+        if j < 0:
+            parts.append(plain[i:])
+            break
+        parts.append(plain[i:j + len(sep)] if inc else plain[i:j])
+        i = j + len(sep)
+    if sep in plain and not blank and plain.endswith(sep):
+        parts.pop()
+    if inc:
+        parts = [p for p in parts if p or blank]
+    return parts
+
+
+@symx("C05-split-special-separators", timeout=600, kind="P", functions=["rich/text.py:Text.split", "rich/text.py:Text.divide"],
+      bounds="Text.split over %d texts x %d separators that are regular-expression metacharacters (or contain one) x "
+             "include_separator x allow_blank, one span over the whole text: the pieces are those of the same split on the plain "
+             "string, lengths consistent, every character keeps the span" % (len(_SPECIAL_TEXTS), len(_SPECIAL_SEPS)))
+def c05_split_special(e):
+    s = _SPECIAL_TEXTS[int(e.mk("text", 0, len(_SPECIAL_TEXTS) - 1))]
+    sep = _SPECIAL_SEPS[int(e.mk("sep", 0, len(_SPECIAL_SEPS) - 1))]
+    inc = bool(e.mkbool("include_separator"))
+    blank = bool(e.mkbool("allow_blank"))
+    t = Text(s, spans=[Span(0, len(s), "k")])
+    parts = t.split(sep, include_separator=inc, allow_blank=blank)
+    want = _ref_split(s, sep, inc, blank) if sep in s else [s]
+    if [p.plain for p in parts] != want:
+        return False
+    for p in parts:
+        if len(p) != len(p.plain) or tags_of(p) != [["k"]] * len(p.plain):
+            return False
+    return True
